@@ -133,6 +133,15 @@ impl Mon {
         if iso > 0 {
             self.r.count("C04.accepted_with_isolated_debt");
         }
+        if h.emode_entries_used > 0 {
+            self.r.count("C04.accepted_with_emode_benefit");
+        }
+        if n > 1 {
+            self.r.count("C04.accepted_with_several_debts");
+        }
+        if h.cap_active > 0 {
+            self.r.count("C04.accepted_with_value_cap_active");
+        }
         // cross-check of the program's own numbers (diagnostic only, never a verdict)
         let ca = w_(&aq.health_cache.asset_value);
         let cl = w_(&aq.health_cache.liability_value);
